@@ -63,7 +63,23 @@ def hostile_pool():
             [], [1], ["R"], [[1]], [{}], {}, {1: 2}, {"a": [1]}, (1,), (), set(), frozenset([1]), {1, "a"},
             Obj(), decimal.Decimal("Infinity"), decimal.Decimal("NaN"), decimal.Decimal("1.5"), decimal.Decimal("1e500"),
             fractions.Fraction(1, 3), complex(1, 2), complex("nan"), dt.date(2020, 1, 1), dt.timedelta(1), uuid.UUID(int=1),
-            pathlib.PurePosixPath("a"), Color.RED, Perm.R | Perm.W, iter([1]), range(3), lambda: 1, type, NotImplemented, ...]
+            pathlib.PurePosixPath("a"), Color.RED, Perm.R | Perm.W, iter([1]), range(3), lambda: 1, type, NotImplemented, ...] + \
+        subclass_instances() + [dict, list, int, str, tuple, Obj, decimal.Decimal("1e-9999"), decimal.Decimal("1e9999")]
+
+
+def subclass_instances():
+    """instances of proper subclasses of every data type a builtin loader accepts (guards written with isinstance let them
+    in, code written for the exact type then meets a look-alike), and some classes that are subclasses in the stdlib itself"""
+    import collections
+
+    def sub(base, *args):
+        return type("Sub" + base.__name__.capitalize(), (base,), {})(*args)
+    return [sub(int, 5), sub(float, 1.5), sub(str, "12"), sub(str, "a"), sub(bytes, b"YQ=="), sub(bytearray, b"a"),
+            sub(decimal.Decimal, "1.5"), sub(decimal.Decimal, "NaN"), sub(fractions.Fraction, 1, 3), sub(complex, 1, 2),
+            sub(dt.date, 2020, 1, 1), dt.datetime(2020, 1, 1), sub(dt.time, 1, 2), sub(dt.timedelta, 1), sub(uuid.UUID, "12345678-1234-5678-1234-567812345678"),
+            sub(list, [1]), sub(tuple, (1, "a")), sub(dict, {"a": 1}), sub(set, {1}), sub(frozenset, {1}),
+            collections.OrderedDict(a=1), collections.defaultdict(list), collections.Counter("ab"), collections.deque([1]),
+            Num.ONE, Num(2), ipaddress.IPv4Interface("1.2.3.4/8"), pathlib.PosixPath("a")]
 
 
 def only_load_errors(exc):
